@@ -480,8 +480,15 @@ def run(ctx):
     # principal_mapping_address is resolved with find_mapping_no_bias: it has to be the order-independent scan (the mapping list is not address-sorted)
     from rules import c06
     c06.rule_find_mapping(ctx, R="C20/principal-lookup", fn="find_mapping_no_bias", system_range=True)
+    # "a stack word holds an address inside the mapping": every word from the stack pointer up to the end of the stack mapping is in
+    # the window both scanners get from get_stack_info (same rule instance as C06/page-start)
+    c06.rule_page_start(ctx, R="C20/scan-window")
     rule_offset_relative(ctx)
     rule_range_siblings(ctx)
     rule_decision_shape(ctx)
     rule_record_kept(ctx)
     rule_soft_only(ctx)
+    # the filter option and the principal address are what the caller configured, in every dump (same rule instance as C19/config-preserved)
+    from rules import c19 as _c19
+    _c19.rule_config_preserved(ctx, R="C20/options-kept", only=("skip_stacks_if_mapping_unreferenced", "principal_mapping_address"))
+
